@@ -549,7 +549,7 @@ def build_import(src, spec, log, read_template):
             header = header.replace(frm, to)
     if spec.rename:
         header = re.sub(r'(?<![A-Za-z0-9_])fn\s+%s(?![A-Za-z0-9_])' % re.escape(it.name), 'fn ' + spec.rename, header, count=1)
-    lines = ['#[verifier::external_body]'] + header.rstrip().split('\n')
+    lines = ['#[verifier::external_body] // vx-import:%s' % spec.import_from] + header.rstrip().split('\n')
     for b in specs:
         lines += b[2]
     lines += getattr(spec, 'extra', [])
@@ -590,7 +590,7 @@ def build_importlemma(spec, log, read_template):
     if not header.lstrip().startswith('pub'):
         header = 'pub ' + header.lstrip()
     log.setdefault('imports', []).append({'from_unit': spec.import_from, 'item': 'proof fn ' + spec.path})
-    lines = ['#[verifier::external_body]'] + header.split('\n') + ['{}']
+    lines = ['#[verifier::external_body] // vx-import:%s' % spec.import_from] + header.split('\n') + ['{}']
     return [GenLine(spec.indent + l if l.strip() else l, ('tmpl', spec.tline)) for l in lines]
 
 
